@@ -447,6 +447,9 @@ func init() {
 			if c.Idx%12 == 5 {
 				return runC02OnceTarget(c, r)
 			}
+			if c.Idx%60 == 2 {
+				return runC02Embedded(c, r)
+			}
 			if c.Idx%12 == 8 {
 				runDefaultsHistory(c, r, &res, nil)
 				if res.Skip == "" {
